@@ -1,0 +1,59 @@
+//go:build verif
+
+package decoder
+
+import "io"
+
+// Verification hooks (build tag "verif").  They record the state of the stream window at the two
+// places where it is re-based: read() (refill, optional doubling) and reset().  Nothing is recorded
+// unless a tracer is installed.
+
+// VerifStreamEvent is one recorded step of the stream window.
+type VerifStreamEvent struct {
+	Ev                                                     string // "read" or "reset"
+	PreCursor, PreLength, PreBufLen, PreBufSize, PreOffset int64
+	PreFilled                                              bool
+	N                                                      int64 // bytes delivered by the reader (read only)
+	EOF, Fail                                              bool  // reader result (read only)
+	Cursor, Length, BufLen, BufSize, Offset                int64
+	Filled                                                 bool
+	Sentinel                                               bool // buf[length] == 0 after the step
+}
+
+// VerifStreamTracer receives the events; nil = tracing off.
+var VerifStreamTracer func(VerifStreamEvent)
+
+type verifStreamSnap struct {
+	cursor, length, buflen, bufsize, offset int64
+	filled                                  bool
+}
+
+func verifStreamPre(s *Stream) verifStreamSnap {
+	if VerifStreamTracer == nil {
+		return verifStreamSnap{}
+	}
+	return verifStreamSnap{s.cursor, s.length, int64(len(s.buf)), s.bufSize, s.offset, s.filledBuffer}
+}
+
+func verifStreamEmit(ev string, s *Stream, pre verifStreamSnap, n int, err error) {
+	e := VerifStreamEvent{Ev: ev,
+		PreCursor: pre.cursor, PreLength: pre.length, PreBufLen: pre.buflen, PreBufSize: pre.bufsize, PreOffset: pre.offset, PreFilled: pre.filled,
+		N: int64(n), EOF: err == io.EOF, Fail: err != nil && err != io.EOF,
+		Cursor: s.cursor, Length: s.length, BufLen: int64(len(s.buf)), BufSize: s.bufSize, Offset: s.offset, Filled: s.filledBuffer}
+	if s.length >= 0 && s.length < int64(len(s.buf)) {
+		e.Sentinel = s.buf[s.length] == nul
+	}
+	VerifStreamTracer(e)
+}
+
+func verifStreamRead(s *Stream, pre verifStreamSnap, n int, err error) {
+	if VerifStreamTracer != nil {
+		verifStreamEmit("read", s, pre, n, err)
+	}
+}
+
+func verifStreamReset(s *Stream, pre verifStreamSnap) {
+	if VerifStreamTracer != nil {
+		verifStreamEmit("reset", s, pre, 0, nil)
+	}
+}
